@@ -406,9 +406,12 @@ class MeanAndVariance(Mean):
     other_count_ratio = math_utils.safe_divide(other.count, self._count)
     delta_mean = math_utils.nanadd(self._mean, -prev_mean)
     mean_diff = math_utils.nanadd(other.mean, -self._mean)
+    # A dimension that is all NaN on one side has count 0 and var NaN there: it
+    # contributes nothing (0 * NaN would turn the merged variance into NaN).
     self._var = (
-        prev_count_ratio * self._var
-        + other_count_ratio * other.var
+        math_utils.nanadd(
+            prev_count_ratio * self._var, other_count_ratio * other.var
+        )
         + prev_count_ratio * delta_mean**2
         + other_count_ratio * mean_diff**2
     )
